@@ -363,6 +363,20 @@ class TOpaque(Shape):
     return VOpaque(z3.Const(ctx.sym(name), sort_named(self.okind)), self.okind)
 
 
+class TRecord(Shape):
+  """Dictionary with a fixed set of constant string keys."""
+
+  def __init__(self, shapes):
+    self.shapes = dict(shapes)
+
+  def fresh(self, ctx, name):
+    from mmverif.engine.symexec import VConstDict
+    d = VConstDict({k: sh.fresh(ctx, '%s[%s]' % (name, k))
+                    for k, sh in self.shapes.items()})
+    d.shapes = self.shapes
+    return d
+
+
 class TObj(Shape):
   """A fresh object of class `cls` whose declared fields are all fresh."""
 
